@@ -125,13 +125,21 @@ def doFt (l : Line) : Option String := do
     let out (sh : List Nat) (y : Array CF) :=
       s!"ok shape={showNatList sh} y={showList CF.str y.toList}"
     let re : CF → CF := fun z => ⟨z.re, 0⟩
-    if inv then
-      let (sh, y) ← ftInverseNd floatRoots ePi CF.conj re amp c t fftw plus hc realdom rshape axes shifts
-          x.toArray
-      some (out sh y)
-    else
-      let (sh, y) ← ftForwardNd floatRoots ePi re amp c t fftw plus hc rshape axes shifts x.toArray
-      some (out sh y)
+    -- `variant=sep` (non-half-complex only): the fibre-wise composition of the one-axis maps
+    -- `ftForwardAxis` / `ftInverseAxis` the theorems are about; default: the staged definition
+    let sep := l.get? "variant" == some "sep"
+    if sep && hc then none
+    let xa := x.toArray
+    let r : Option (List Nat × Array CF) :=
+      if inv then
+        if sep then
+          (ftInverseSepNd floatRoots ePi amp c t plus rshape axes shifts xa).map
+            fun (sh, y) => (sh, if realdom then y.map re else y)
+        else ftInverseNd floatRoots ePi CF.conj re amp c t fftw plus hc realdom rshape axes shifts xa
+      else
+        if sep then ftForwardSepNd floatRoots ePi amp c t plus rshape axes shifts xa
+        else ftForwardNd floatRoots ePi re amp c t fftw plus hc rshape axes shifts xa
+    r.map fun (sh, y) => out sh y
 
 /-- `padmode name= zero=0|1` -/
 def doPad (l : Line) : Option String := do
@@ -159,6 +167,17 @@ def doRavel (l : Line) : Option String := do
   let sl := ravelSlices a d
   some ("ok " ++ " ".intercalate (sl.map fun (k, a, b) => s!"{k}:{a}:{b}"))
 
+/-- `unravel a= d= x=`: cut a flat coefficient vector at ODL's precomputed slices -/
+def doUnravel (l : Line) : Option String := do
+  let a ← l.get? "a" >>= parseShape
+  let d ← match l.get? "d" with
+    | some "-" => some []
+    | some ds => (ds.splitOn "/").mapM parseLevel
+    | none => none
+  let x ← l.rats? "x"
+  let sl := (ravelSlices a d).map (·.2)
+  some s!"ok blocks={showRatMat (unravel sl x)}"
+
 /-- `crop recon=5,4 intended=4,4` -/
 def doCrop (l : Line) : Option String := do
   let r ← l.nats? "recon"; let n ← l.nats? "intended"
@@ -167,11 +186,22 @@ def doCrop (l : Line) : Option String := do
   | .ok k => some s!"ok keep={showNatList k}"
   | .error e => some e
 
-/-- `adjscale forward= cv=` -/
-def doAdj (l : Line) : Option String := do
-  let f ← l.bool? "forward"; let cv ← l.rat? "cv"
-  if cv = 0 then none
-  some s!"ok {showRat (adjointScale f cv)}"
+/-- `adjweights const= shape= fl= fr=`: the pointwise inner-product weights (C order);
+`fl`, `fr`: left/right boundary cell fractions per axis -/
+def doAdjWeights (l : Line) : Option String := do
+  let c ← l.rat? "const"; let shape ← l.nats? "shape"
+  let fl ← l.rats? "fl"; let fr ← l.rats? "fr"
+  if fl.length ≠ shape.length || fr.length ≠ shape.length || shape.any (· = 0) then none
+  let total := Wavelet.prod shape
+  let ws := (List.range total).map fun i => innerWeight c (fl.zip fr) shape (unravelIndex shape i)
+  some s!"ok w={showRatList ws}"
+
+/-- `adjapply w= inv=`: `WaveletTransform.adjoint` from the weights and the inverse's values -/
+def doAdjApply (l : Line) : Option String := do
+  let w ← l.rats? "w"; let inv ← l.rats? "inv"
+  if w.length ≠ inv.length || w.any (· = 0) then none
+  let wa := w.toArray; let ia := inv.toArray
+  some s!"ok r={showRatList ((List.range w.length).map (adjointForward (fun i => wa.getD i 1) (fun i => ia.getD i 0)))}"
 
 /-- `reconok n= r=`: is `r` an admissible `waverecn` length for an axis of length `n` -/
 def doReconOk (l : Line) : Option String := do
@@ -185,10 +215,19 @@ def doDftRange (l : Line) : Option String := do
   if n = 0 then none
   some s!"ok range={dftRangeLen n c hc} out={dftOutLen n c hc}"
 
-/-- `plan fresh= destroys=`: does the data survive FFTW planning in `pyfftw_call` -/
+/-- `plan fresh= destroys= inplace=`: does the data survive FFTW planning in `pyfftw_call` -/
 def doPlan (l : Line) : Option String := do
-  let f ← l.bool? "fresh"; let d ← l.bool? "destroys"
-  some s!"ok survives={if dataSurvivesPlanning f d then 1 else 0}"
+  let f ← l.bool? "fresh"; let d ← l.bool? "destroys"; let ip ← l.bool? "inplace"
+  some s!"ok survives={if dataSurvivesPlanning f d ip then 1 else 0}"
+
+/-- `ctor kind=dft|ft fwdplus= hc= lastshift=`: constructor accepts / rejects -/
+def doCtor (l : Line) : Option String := do
+  let k ← l.get? "kind"; let p ← l.bool? "fwdplus"; let hc ← l.bool? "hc"
+  let st ← match k with
+    | "dft" => some (dftCtorStatus p hc)
+    | "ft" => (l.bool? "lastshift").map (ftCtorStatus p hc)
+    | _ => none
+  some (st.getD "ok")
 
 def handle (l : Line) : Option String :=
   match l.op with
@@ -199,11 +238,14 @@ def handle (l : Line) : Option String :=
   | "dft" => doDft l
   | "dftrange" => doDftRange l
   | "plan" => doPlan l
+  | "ctor" => doCtor l
   | "ft" => doFt l
   | "padmode" => doPad l
   | "ravel" => doRavel l
+  | "unravel" => doUnravel l
   | "crop" => doCrop l
-  | "adjscale" => doAdj l
+  | "adjweights" => doAdjWeights l
+  | "adjapply" => doAdjApply l
   | "reconok" => doReconOk l
   | _ => none
 
